@@ -540,7 +540,7 @@ fn expected_probes(prop: &str) -> Vec<&'static str> {
         "C13" => v.extend(["flush", "catalogue_checked", "column_searches", "sp:compact:start"]),
         "C15" => v.extend(["columns_read", "sp:load:before_read", "restart"]),
         "C18" => v.extend(["garbage_checked", "sp:compact:start"]),
-        "C17" => v.extend(["http_query:Query", "http_query:QueryCols", "http_query:MultiJson", "http_query:MultiBin", "http_query:MultiBinXor", "http_answers_equal_embedded", "http_failing_query_mapped", "prefix_queries_checked", "http_columns"]),
+        "C17" => v.extend(["http_query:Query", "http_query:QueryCols", "http_query:MultiJson", "http_query:MultiBin", "http_query:MultiBinXor", "http_answers_equal_embedded", "http_failing_query_mapped", "prefix_queries_checked", "http_columns", "http_multi_requests"]),
         _ => {}
     }
     v
